@@ -98,7 +98,27 @@ def check_one(ctx, src, scopes, config, case):
         minify.write_keep_file(keep_file, [b'keepme', b'x', b'player'], ctx.rng)
     try:
         try:
-            if config.startswith('cli'):
+            if config == 'build_minify':
+                # `p8tool build out.p8 --lua main.lua --lua-minify`: the other command that minifies
+                import tempfile
+                from pico8 import tool
+                from .. import refcodec as rc
+                tmpb = tempfile.mkdtemp(prefix='vf-c19b-')
+                try:
+                    main = os.path.join(tmpb, 'main.lua')
+                    with open(main, 'wb') as fh:
+                        fh.write(src)
+                    outp = os.path.join(tmpb, ambient.BASE[0] + '.p8')
+                    if tool.main([ambient.vflag(), 'build', outp, '--lua', main, '--lua-minify']):
+                        raise RuntimeError('p8tool build --lua-minify failed')
+                    out = rc.read_p8(open(outp, 'rb').read())['code']
+                    if not src.endswith(b'\n') and out.endswith(b'\n'):
+                        out = out[:-1]
+                finally:
+                    import shutil
+                    shutil.rmtree(tmpb, ignore_errors=True)
+                ctx.monitor('build_minify_runs')
+            elif config.startswith('cli'):
                 # `p8tool luamin [--keep-names-from-file f] cart.p8`: the cart writer runs the Lua writer twice per write
                 from pico8 import tool
                 from .. import refcodec as rc, carts
@@ -211,10 +231,15 @@ def run_shard(spec, ctx):
         nl = b'\r\n' if crlf else b'\n'
         ncomments = rng.choice((0, 1, 1, 2, 2, 2, 3, 4))
         header, kinds = make_header(rng, ncomments, nl)
-        body_kind = rng.choice(('program', 'program', 'program', 'none', 'tiny'))
+        body_kind = rng.choice(('program', 'program', 'program', 'none', 'tiny', 'return_first'))
         if body_kind == 'none':
             src = header
             scopes = []
+        elif body_kind == 'return_first':
+            # a data module: the code is one return statement
+            src = header + rng.choice((b'return {1,2,3}', b'return\n', b'return data -- c\n', b'do return end\n'))
+            scopes = []
+            ctx.feature('code_is_a_return_statement')
         else:
             p = progen.gen_program(rng, {'depth': 1 if body_kind == 'tiny' else rng.choice((1, 2, 3)),
                                          'max_stmts': 1 if body_kind == 'tiny' else 4})
@@ -229,8 +254,8 @@ def run_shard(spec, ctx):
             continue
         if 'same-line-code' in kinds and body_kind != 'none':
             ctx.feature('code_on_header_line')
-        config = rng.choice(('default', 'default', 'keep_all', 'keep_file', 'cli', 'cli_keep_file'))
-        if config.startswith('cli') and (b'\r' in src or body_kind == 'none'):
+        config = rng.choice(('default', 'default', 'keep_all', 'keep_file', 'cli', 'cli_keep_file', 'build_minify'))
+        if (config.startswith('cli') or config == 'build_minify') and (b'\r' in src or body_kind == 'none'):
             config = 'default'
         check_one(ctx, src, scopes, config, {'src': src, 'config': config, 'scopes': [list(s) for s in scopes]})
         if i == 0:
@@ -251,7 +276,7 @@ def gates(m, tier):
               'no_final_newline'):
         if f.get(k, 0) < 10:
             missed.append('%s seen %d times' % (k, f.get(k, 0)))
-    for c in ('default', 'keep_all', 'keep_file', 'cli', 'cli_keep_file'):
+    for c in ('default', 'keep_all', 'keep_file', 'cli', 'cli_keep_file', 'build_minify'):
         if f.get('config:' + c, 0) < 20:
             missed.append('configuration %s: %d' % (c, f.get('config:' + c, 0)))
     if f.get('code_plus_header_over_65535', 0) < 3 or f.get('code_plus_header_within_65535', 0) < 1:
